@@ -92,7 +92,7 @@ def build(recipe, notes=None):
 @st.composite
 def dag(draw, *, max_nodes=12, leaf_profile='plain', kinds=None, p_alias=0.55,
         bts=('Config',), fns=None, allow_copyof=True, root_kinds=None, tags=False,
-        min_nodes=1, uid=True, chain_bias=False):
+        min_nodes=1, uid=True, chain_bias=False, clear_ann_tags=False):
   """Draws a recipe {"nodes", "root"}.
 
   kinds: weights list of node kinds among B, list, tuple, dict, nt, box, ddict.
@@ -213,6 +213,9 @@ def dag(draw, *, max_nodes=12, leaf_profile='plain', kinds=None, p_alias=0.55,
       if tags and draw(st.booleans()):
         node['tags'] = [[draw(st.sampled_from(['a', 'k', 'z0', 0, 1, 2, 3])),
                          draw(st.sampled_from(['TagA', 'TagB', 'TagC', 'TagX']))]]
+      if clear_ann_tags and draw(st.booleans()):
+        # history: the tags an annotation put on a parameter are removed again
+        node['edits'].append(['clear_tags', draw(st.sampled_from([0, 'a', 'k']))])
     elif kind == 'AFP':
       # a Partial with an ArgFactory argument (ArgFactory is only valid inside Partial)
       af_fn = draw(st.sampled_from(['things:make_list', 'things:make_rec', 'things:ident']))
